@@ -8,17 +8,17 @@ Open Scope nat_scope.
    expression assignments and enable / disable of ports at rest — every quiescent state has every enabled port with an
    expression hold (at its driver and as reported value) the coerced value of that expression over the current values; the
    property is silent when the expression has an error or reads a disabled port.
-   [refresh_after_write] and [enable_forces_all] are regenerated from core/ports.py on every run. *)
+   [refresh_after_write], [enable_forces_all] and [disable_forces_all] are regenerated from core/ports.py on every run. *)
 Theorem C01_convergence :
   forall (pname : pid -> string) (ids : list pid) (now : Z) s0 tr s,
     pristine Z expr s0 ->
-    run_wf Z veqb expr pyval (feval pname ids now) (deps pname ids) coerce s0 tr ->
-    run Z veqb expr pyval (feval pname ids now) (deps pname ids) coerce refresh_after_write enable_forces_all s0 tr = Some s ->
+    run_wf Z veqb expr pyval (feval pname ids now) (deps pname ids) coerce disable_forces_all s0 tr ->
+    run Z veqb expr pyval (feval pname ids now) (deps pname ids) coerce refresh_after_write enable_forces_all disable_forces_all s0 tr = Some s ->
     quiescent Z veqb expr s ->
     forall q, In q (all_ids s) -> follows Z veqb expr pyval (feval pname ids now) (deps pname ids) coerce s q.
 Proof.
   rewrite refresh_after_write_true, enable_forces_all_true. intros pname ids now.
-  exact (convergence Z veqb veqb_spec expr pyval (feval pname ids now) (deps pname ids) coerce (frame pname ids now)).
+  exact (convergence Z veqb veqb_spec expr pyval (feval pname ids now) (deps pname ids) coerce (frame pname ids now) disable_forces_all).
 Qed.
 Print Assumptions C01_convergence.
 
@@ -27,11 +27,11 @@ Theorem C01_reeval_on_dep_change :
   forall (pname : pid -> string) (ids : list pid) (now : Z) (s : state Z expr) chg q e d,
     pass s = Some {| to_read := []; changed := chg |} -> In q (all_ids s) -> en (Hub.ports s q) = true ->
     Hub.expr (Hub.ports s q) = Some e -> In d (deps pname ids e) -> d <> q -> In d chg ->
-    exists s', step Z veqb expr pyval (feval pname ids now) (deps pname ids) coerce true true s PassEnd = Some s'
+    exists s', step Z veqb expr pyval (feval pname ids now) (deps pname ids) coerce true true disable_forces_all s PassEnd = Some s'
                /\ evq (Hub.ports s' q) = evq (Hub.ports s q) ++ [lasts Z expr s].
 Proof.
   intros pname ids now.
-  exact (reeval_on_dep_change Z veqb expr pyval (feval pname ids now) (deps pname ids) coerce).
+  exact (reeval_on_dep_change Z veqb expr pyval (feval pname ids now) (deps pname ids) coerce disable_forces_all).
 Qed.
 Print Assumptions C01_reeval_on_dep_change.
 
@@ -40,11 +40,11 @@ Theorem C01_no_eval_without_dep_change :
   forall (pname : pid -> string) (ids : list pid) (now : Z) (s : state Z expr) chg q e,
     pass s = Some {| to_read := []; changed := chg |} -> In q (all_ids s) -> Hub.expr (Hub.ports s q) = Some e ->
     force_all s = false -> forced (Hub.ports s q) = false -> (forall d, In d (deps pname ids e) -> d <> q -> ~ In d chg) ->
-    exists s', step Z veqb expr pyval (feval pname ids now) (deps pname ids) coerce true true s PassEnd = Some s'
+    exists s', step Z veqb expr pyval (feval pname ids now) (deps pname ids) coerce true true disable_forces_all s PassEnd = Some s'
                /\ evq (Hub.ports s' q) = evq (Hub.ports s q).
 Proof.
   intros pname ids now.
-  exact (no_eval_without_dep_change Z veqb expr pyval (feval pname ids now) (deps pname ids) coerce).
+  exact (no_eval_without_dep_change Z veqb expr pyval (feval pname ids now) (deps pname ids) coerce disable_forces_all).
 Qed.
 Print Assumptions C01_no_eval_without_dep_change.
 
